@@ -1550,7 +1550,7 @@ def failure_class(desc, kw, run):
   """A stable name for the way an (accepted or half-constructed) configuration
   fails; 'unclassified' when no known pattern applies."""
   kind, stage, exc, msg = desc["kind"], run.stage, run.exc, run.msg or ""
-  for name, fn in sorted(FAILURE_PATTERNS, key=lambda p: p[0] != "bare_string_regularizer"):
+  for name, fn in FAILURE_PATTERNS:
     try:
       if fn(kind, kw, stage, exc, msg, desc):
         return name
@@ -2300,7 +2300,8 @@ def _p23(kind, kw, stage, exc, msg, desc):
 
 @pattern("bare_string_regularizer")
 def _p24(kind, kw, stage, exc, msg, desc):
-  return isinstance(kw.get("kernel_regularizer"), str)
+  return (isinstance(kw.get("kernel_regularizer"), str) and exc == "TypeError" and
+          "'str' object is not callable" in msg)
 
 
 _register_known()
